@@ -4,7 +4,7 @@ C01 — Counter increments are never lost and never go backwards.
 (C11 shares the machine; see `Props/C11.lean`.)
 
 Subject: the step machine `Conc.aStep` / `Conc.aItem` of one shared cell, at the granularity of the
-atomic operations (`load`, `store`, `fetch_add`, `fetch_sub`, `compare_exchange_weak`). A state is
+atomic operations (`load`, `store`, `swap`, `fetch_add`, `fetch_sub`, `compare_exchange(_weak)`). A state is
 reachable by ANY list of accepted items — any number of threads, any programs, any interleaving,
 any number of spurious compare-exchange failures; the real traces produced under the scheduler are
 checked to be accepted runs of exactly this machine.
@@ -39,6 +39,43 @@ theorem specRun_append (float : Bool) (v : UInt64) (l : List LinEv) (x : LinEv) 
     at that point -/
 def LinInv (s : ASt) : Prop := specRun s.float 0 s.lin = some s.mem
 
+/-- a float delta exists only for the add-like operations: not for `get`, `set`, `reset` -/
+theorem floatDelta_some_names {op : String} {d : UInt64} (hd : floatDelta op = some d) :
+    (opName op == "get") = false ∧ (opName op == "set" || opName op == "reset") = false := by
+  constructor
+  · cases hh : opName op == "get"
+    · rfl
+    · simp only [beq_iff_eq] at hh; simp [floatDelta, hh] at hd
+  · cases hh : (opName op == "set" || opName op == "reset")
+    · rfl
+    · simp only [Bool.or_eq_true, beq_iff_eq] at hh
+      rcases hh with hh | hh <;> simp [floatDelta, hh] at hd
+
+/-- the value the compare-exchange of an add installs, when it expects the cell's CURRENT value, is the value the
+    sequential specification of that add gives - in both flavours -/
+theorem casNew_spec {float : Bool} {op : String} {v w : UInt64} (h : casNew float op v = some w) :
+    specApply float v op = some (w, "") := by
+  unfold casNew at h
+  split at h
+  · next hf =>
+    cases hd : floatDelta op with
+    | none => simp [hd] at h
+    | some d =>
+      simp only [hd, Option.map_some, Option.some.injEq] at h
+      obtain ⟨hng, hns⟩ := floatDelta_some_names hd
+      unfold specApply
+      simp [hng, hns, hf, hd, h]
+  · next hf =>
+    simp only at h
+    split at h
+    · cases h
+    · next hn =>
+      simp only [Option.some.injEq] at h
+      simp only [Bool.or_eq_true, not_or, Bool.not_eq_true] at hn
+      have hf' : float = false := by simpa using hf
+      unfold specApply
+      simp [hn.1.1, hn.1.2, hn.2, hf', h]
+
 /-- a first step that completes its call takes effect as the specification says, on the current value -/
 theorem aEvStart_commit {float : Bool} {mem : UInt64} {op : String} {e : Ev} {mem' : UInt64} {rv : String}
     (h : aEvStart float mem op e = .ok (mem', .inr rv)) : specApply float mem op = some (mem', rv) := by
@@ -62,36 +99,37 @@ theorem aEvStart_commit {float : Bool} {mem : UInt64} {op : String} {e : Ev} {me
         · cases h
         · rw [guard_ok] at h; obtain ⟨_, h⟩ := h; cases h
       · next hf =>
-        rw [guard_ok] at h; obtain ⟨_, h⟩ := h; cases h
-        simp [hg, hs, hf]
+        split at h
+        · rw [guard_ok] at h; obtain ⟨_, h⟩ := h; cases h
+        · rw [guard_ok] at h; obtain ⟨_, h⟩ := h; cases h
+          simp [hg, hs, hf]
+
+/-- a compare-exchange that completes its call succeeded: it found exactly the expected value `cur` in the cell
+    and installed `casNew float op cur`, the add applied to that value -/
+theorem aEvCas_success_new {float : Bool} {mem : UInt64} {op : String} {cur : UInt64} {e : Ev} {mem' : UInt64} {rv : String}
+    (h : aEvCas float mem op cur e = .ok (mem', .inr rv)) :
+    mem = cur ∧ casNew float op mem = some mem' ∧ rv = "" ∧ e.k = "C" ∧ e.ok = true ∧ e.res = mem := by
+  unfold aEvCas at h
+  split at h
+  · cases h
+  · next newv hd =>
+    rw [guard_ok] at h; obtain ⟨hg, h⟩ := h
+    simp only [Bool.and_eq_true, beq_iff_eq] at hg
+    split at h
+    · next hok =>
+      rw [guard_ok] at h; obtain ⟨hc, h⟩ := h
+      simp only [Bool.and_eq_true, beq_iff_eq] at hc
+      cases h
+      refine ⟨hc.1, ?_, rfl, hg.1.1.1, hok, ?_⟩
+      · rw [hc.1]; exact hd
+      · rw [hc.1]; exact hc.2
+    · rw [guard_ok] at h; obtain ⟨_, h⟩ := h; cases h
 
 /-- a compare-exchange that completes its call takes effect as the specification says, on the current value -/
 theorem aEvCas_commit {float : Bool} {mem : UInt64} {op : String} {cur : UInt64} {e : Ev} {mem' : UInt64} {rv : String}
     (h : aEvCas float mem op cur e = .ok (mem', .inr rv)) : specApply float mem op = some (mem', rv) := by
-  unfold aEvCas at h
-  simp only at h
-  split at h
-  · cases h
-  · next d hd =>
-    rw [guard_ok] at h; obtain ⟨hg, h⟩ := h
-    simp only [Bool.and_eq_true, beq_iff_eq] at hg
-    split at h
-    · rw [guard_ok] at h; obtain ⟨hc, h⟩ := h
-      simp only [Bool.and_eq_true, beq_iff_eq] at hc
-      cases h
-      unfold specApply
-      have hfl : float = true := hg.1.1.1.1
-      have hng : (opName op == "get") = false := by
-        cases hh : opName op == "get"
-        · rfl
-        · simp only [beq_iff_eq] at hh; simp [floatDelta, hh] at hd
-      have hns : (opName op == "set" || opName op == "reset") = false := by
-        cases hh : (opName op == "set" || opName op == "reset")
-        · rfl
-        · simp only [Bool.or_eq_true, beq_iff_eq] at hh
-          rcases hh with hh | hh <;> simp [floatDelta, hh] at hd
-      simp [hng, hns, hfl, hd, hc.1]
-    · rw [guard_ok] at h; obtain ⟨_, h⟩ := h; cases h
+  obtain ⟨_, hn, hr, _⟩ := aEvCas_success_new h
+  rw [hr]; exact casNew_spec hn
 
 /-- what `aEv` is at each program counter, once the location is the cell's: at `retry cur` a load is
     handled as at `start`, any other event as at `cas cur` -/
@@ -118,8 +156,8 @@ theorem aEv_commit {float : Bool} {mem : UInt64} {op : String} {pc : APc} {e : E
   · exact aEvStart_commit h
   · exact aEvCas_commit h
 
-/-- a first step after which the call continues is the load of a float add: nothing changes, next is
-    the compare-exchange expecting the value loaded -/
+/-- a first step after which the call continues is the load of an add written as a loop (float; integer):
+    nothing changes, next is the compare-exchange expecting the value loaded -/
 theorem aEvStart_continue {float : Bool} {mem : UInt64} {op : String} {e : Ev} {mem' : UInt64} {pc' : APc}
     (h : aEvStart float mem op e = .ok (mem', .inl pc')) : mem' = mem ∧ pc' = .cas mem ∧ e.k = "L" := by
   unfold aEvStart at h
@@ -134,14 +172,17 @@ theorem aEvStart_continue {float : Bool} {mem : UInt64} {op : String} {e : Ev} {
         · rw [guard_ok] at h; obtain ⟨hg, h⟩ := h; cases h
           simp only [Bool.and_eq_true, beq_iff_eq] at hg
           exact ⟨rfl, rfl, hg.1.1⟩
-      · rw [guard_ok] at h; obtain ⟨_, h⟩ := h; cases h
+      · split at h
+        · next hk =>
+          rw [guard_ok] at h; obtain ⟨_, h⟩ := h; cases h
+          exact ⟨rfl, rfl, by simpa using hk⟩
+        · rw [guard_ok] at h; obtain ⟨_, h⟩ := h; cases h
 
 /-- a compare-exchange after which the call continues failed, reported the current value, changed nothing
     and leaves the thread at `retry` of that value -/
 theorem aEvCas_continue {float : Bool} {mem : UInt64} {op : String} {cur : UInt64} {e : Ev} {mem' : UInt64} {pc' : APc}
     (h : aEvCas float mem op cur e = .ok (mem', .inl pc')) : mem' = mem ∧ pc' = .retry mem ∧ e.ok = false ∧ e.res = mem := by
   unfold aEvCas at h
-  simp only at h
   split at h
   · cases h
   · rw [guard_ok] at h; obtain ⟨_, h⟩ := h
@@ -151,8 +192,18 @@ theorem aEvCas_continue {float : Bool} {mem : UInt64} {op : String} {cur : UInt6
       rw [guard_ok] at h; obtain ⟨hr, h⟩ := h; cases h
       exact ⟨rfl, rfl, by simpa using hok, by simpa using hr⟩
 
-/-- an event that does not complete its call (the load of a float add, a failed compare-exchange)
-    leaves the cell as it was -/
+/-- every event the compare-exchange arm accepts is a compare-exchange -/
+theorem aEvCas_kind {float : Bool} {mem : UInt64} {op : String} {cur : UInt64} {e : Ev} {r : UInt64 × (APc ⊕ String)}
+    (h : aEvCas float mem op cur e = .ok r) : e.k = "C" := by
+  unfold aEvCas at h
+  split at h
+  · cases h
+  · rw [guard_ok] at h; obtain ⟨hg, _⟩ := h
+    simp only [Bool.and_eq_true, beq_iff_eq] at hg
+    exact hg.1.1.1
+
+/-- an event that does not complete its call (the load of an add written as a loop, a failed
+    compare-exchange) leaves the cell as it was -/
 theorem aEv_continue {float : Bool} {mem : UInt64} {op : String} {pc : APc} {e : Ev} {mem' : UInt64} {pc' : APc}
     (h : aEv float mem op pc e = .ok (mem', .inl pc')) : mem' = mem := by
   rcases aEv_cases h with ⟨h, _⟩ | ⟨cur, h, _⟩
@@ -170,7 +221,7 @@ inductive AShape (s s' : ASt) : Prop
       (hev : aEv s.float s.mem (th.ops.getD th.idx "") pc e = .ok (mem', .inr rv))
       (hs : s' = { s with mem := mem', ths := s.ths.set e.tid { th with pc := none, retv := some rv },
                           lin := s.lin ++ [⟨e.tid, th.idx, th.ops.getD th.idx "", rv⟩] })
-  /-- an event after which the call continues (load of a float add, failed compare-exchange) -/
+  /-- an event after which the call continues (load of an add written as a loop, failed compare-exchange) -/
   | cont (e : Ev) (th : Th APc) (pc pc' : APc)
       (hth : s.ths[e.tid]? = some th) (hpc : th.pc = some pc)
       (hs : s' = { s with ths := s.ths.set e.tid { th with pc := some pc' } })
